@@ -16,13 +16,14 @@ import (
 // Shape is the concrete instance of the abstract document classes of the specification (DESIGN 3.2):
 // the model enumerates histories and key sets, the concretiser picks the bytes.
 type Shape struct {
-	Size   string `json:"size"`   // "min" | "s5" | "straddle" | "s300" | "big"
-	Pos    string `json:"pos"`    // "first" | "middle" | "last"
-	Width  string `json:"width"`  // "w1" | "w8" | "w9" | "w16" | "w20"
-	Ext    string `json:"ext"`    // "none" | "reason" | "multi" | "certissuer" (entries of a CRL of another CA claim the probe's issuer, 2.5.29.29)
-	Enc    string `json:"enc"`    // "der" | "pem" | "pemcrlf"
-	Garble string `json:"garble"` // kind of garbage body: "text" | "random" | "empty" | "truncated"
-	Num    string `json:"num"`    // cRLNumber policy of successive lists: "inc" | "same" (reissued under the same number) | "absent" (no cRLNumber; v1 or v2 without it)
+	Size   string `json:"size"`          // "min" | "s5" | "straddle" | "s300" | "big"
+	Pos    string `json:"pos"`           // "first" | "middle" | "last"
+	Width  string `json:"width"`         // "w1" | "w8" | "w9" | "w16" | "w20"
+	Ext    string `json:"ext"`           // "none" | "reason" | "multi" | "certissuer" (entries of a CRL of another CA claim the probe's issuer, 2.5.29.29)
+	Enc    string `json:"enc"`           // "der" | "pem" | "pemcrlf"
+	Garble string `json:"garble"`        // kind of garbage body: "text" | "random" | "empty" | "truncated"
+	Aki    string `json:"aki,omitempty"` // authorityKeyIdentifier of the lists, where the signature policy does not need it to find the signer: "" (keyIdentifier) | "empty" (SEQUENCE {}) | "issueronly" | "issuerserial" | "absent"
+	Num    string `json:"num"`           // cRLNumber policy of successive lists: "inc" | "same" (reissued under the same number) | "absent" (no cRLNumber; v1 or v2 without it)
 }
 
 var (
@@ -51,6 +52,7 @@ func randomShape(rng *rand.Rand) Shape {
 		Enc:    shapeEncs[rng.Intn(len(shapeEncs))],
 		Garble: shapeGarble[rng.Intn(len(shapeGarble))],
 		Num:    []string{"inc", "inc", "same", "absent"}[rng.Intn(4)],
+		Aki:    []string{"", "", "", "empty", "issueronly", "issuerserial", "absent"}[rng.Intn(7)],
 	}
 }
 
@@ -132,6 +134,9 @@ type CRLSpec struct {
 	Avoid   []*big.Int // serials that must NOT be listed (other probes)
 	CritExt bool       // carries an unknown critical CRL extension
 	Number  int64
+	// OddAKI: the shape's unusual authorityKeyIdentifier form may be used (set by the caller when the configured signature
+	// policy accepts every parseable list, so that the signer need not be found through the extension)
+	OddAKI bool
 	// ForeignIssuerRaw: the DER name of the CA whose certificates are probed, given when Signer is another CA. With the shape
 	// "certissuer" every entry then carries a certificateIssuer entry extension naming that CA. The CRL is not an indirect CRL and no
 	// certificate delegates revocation to Signer, so the entries still concern nobody but Signer's own certificates.
@@ -198,13 +203,10 @@ func BuildCRL(spec CRLSpec, s Shape) []byte {
 		crlExtra = []pkix.Extension{{Id: asn1.ObjectIdentifier{1, 3, 6, 1, 4, 1, 99999, 9}, Critical: true, Value: []byte{0x05, 0x00}}}
 	}
 	var der []byte
-	switch s.Num {
-	case "same":
-		der = spec.Signer.StdCRLExt(7, entries, now, now.Add(24*time.Hour), crlExtra)
-	case "absent":
-		der = buildWithoutNumber(spec, entries, now, crlExtra)
-	default:
-		der = spec.Signer.StdCRLExt(spec.Number, entries, now, now.Add(24*time.Hour), crlExtra)
+	if spec.OddAKI && s.Aki != "" {
+		der = buildDER(spec, entries, now, crlExtra, s.Num, s.Aki)
+	} else {
+		der = buildStd(spec, entries, now, crlExtra, s.Num)
 	}
 	switch s.Enc {
 	case "pem":
@@ -213,6 +215,75 @@ func BuildCRL(spec CRLSpec, s Shape) []byte {
 		return pki.PEMCRL(der, true)
 	}
 	return der
+}
+
+func buildStd(spec CRLSpec, entries []pki.CRLEntry, now time.Time, crlExtra []pkix.Extension, num string) []byte {
+	var der []byte
+	switch num {
+	case "same":
+		der = spec.Signer.StdCRLExt(7, entries, now, now.Add(24*time.Hour), crlExtra)
+	case "absent":
+		der = buildWithoutNumber(spec, entries, now, crlExtra)
+	default:
+		der = spec.Signer.StdCRLExt(spec.Number, entries, now, now.Add(24*time.Hour), crlExtra)
+	}
+	return der
+}
+
+// buildDER renders a v2 list with derbuild, with the authorityKeyIdentifier in the given form and the cRLNumber policy num.
+func buildDER(spec CRLSpec, entries []pki.CRLEntry, now time.Time, crlExtra []pkix.Extension, num, akiForm string) []byte {
+	alg := derbuild.Algs["ecdsaWithSHA256"]
+	if spec.Signer.Alg == "rsa" {
+		alg = derbuild.Algs["sha256WithRSA"]
+	}
+	nu := now.Add(24 * time.Hour)
+	doc := &derbuild.Doc{Version: 2, Alg: alg, IssuerRaw: spec.Signer.Cert.RawSubject, ThisUpdate: now, NextUpdate: &nu, ListPresent: len(entries) > 0, ExtsPresent: true}
+	rawName := asn1.RawValue{Class: asn1.ClassContextSpecific, Tag: 4, IsCompound: true, Bytes: spec.Signer.Cert.RawIssuer}
+	dn, _ := asn1.Marshal(rawName)
+	issuerField := asn1.RawValue{Class: asn1.ClassContextSpecific, Tag: 1, IsCompound: true, Bytes: dn}
+	serialBytes := spec.Signer.Cert.SerialNumber.Bytes()
+	if len(serialBytes) == 0 || serialBytes[0]&0x80 != 0 {
+		serialBytes = append([]byte{0}, serialBytes...)
+	}
+	serialField := asn1.RawValue{Class: asn1.ClassContextSpecific, Tag: 2, Bytes: serialBytes}
+	var akiVal []byte
+	switch akiForm {
+	case "empty":
+		akiVal = []byte{0x30, 0x00}
+	case "issueronly":
+		akiVal, _ = asn1.Marshal([]asn1.RawValue{issuerField})
+	case "issuerserial":
+		akiVal, _ = asn1.Marshal([]asn1.RawValue{issuerField, serialField})
+	}
+	if akiVal != nil {
+		doc.Exts = append(doc.Exts, pkix.Extension{Id: asn1.ObjectIdentifier{2, 5, 29, 35}, Value: akiVal})
+	}
+	if num != "absent" {
+		n := spec.Number
+		if num == "same" {
+			n = 7
+		}
+		nv, _ := asn1.Marshal(big.NewInt(n))
+		doc.Exts = append(doc.Exts, pkix.Extension{Id: asn1.ObjectIdentifier{2, 5, 29, 20}, Value: nv})
+	}
+	doc.Exts = append(doc.Exts, crlExtra...)
+	if len(doc.Exts) == 0 {
+		doc.ExtsPresent = false
+	}
+	for _, e := range entries {
+		de := derbuild.Entry{Serial: e.Serial, Date: e.Time}
+		if e.Reason != 0 {
+			r, _ := asn1.Marshal(asn1.Enumerated(e.Reason))
+			de.Exts = append(de.Exts, pkix.Extension{Id: asn1.ObjectIdentifier{2, 5, 29, 21}, Value: r})
+		}
+		de.Exts = append(de.Exts, e.Extra...)
+		doc.Entries = append(doc.Entries, de)
+	}
+	b, err := doc.Build(spec.Signer.Key)
+	if err != nil {
+		panic(err)
+	}
+	return b.DER
 }
 
 // Garbage returns an unparseable body of the shape's kind.
